@@ -88,6 +88,10 @@ def run_controls():
     sweeps.sorted_argument(ctx, o, ['ctl2.'])
     expect('sorted-arg', o, 'SORTED-ARG', 'np.searchsorted(all_labels')
     expect('sorted-arg-ok', o, 'SORTED-ARG', 'np.searchsorted(ref', want=False)
+    o = Obligations('CTL')
+    sweeps.loop_state(ctx, o, ['ctl2.'])
+    expect('loop-state', o, 'LOOP-STATE', '`theta` does not carry')
+    expect('loop-state-acc', o, 'LOOP-STATE', '`out` does not carry', want=False)
     from .props.c03 import putmask_values
     o = Obligations('CTL')
     putmask_values(ctx, o, prefix='ctl2.')
